@@ -6,6 +6,7 @@
 From Coq Require Import NArith List.
 Import ListNotations.
 From CXV Require Import Gen.Blocks Parse.BlocksSM Parse.BlocksSpec Parse.BlocksThms.
+From CXV Require Gen.PinsC03.
 From CXV Require Import Gen.TokTy Parse.Declarator Parse.DeclSpec Parse.DeclThms Parse.BaseClause Parse.EnumList Parse.Specs Parse.Init Parse.Members Parse.MethodTail.
 Open Scope N_scope.
 
@@ -66,6 +67,13 @@ Theorem class_head_decodes_partial : forall default vs ws rest,
   = DOk (existsb (fun f => f) vs, existsb negb vs, map (resolve default) ws, rest).
 Proof. exact class_head_roundtrip. Qed.
 
+(* the functions the hand-written models above mirror (_parse_class_decl_base_clause, _parse_method_end, _discard_ctor_initializer, _parse_field and _parse_bitfield) are, token for
+   token of their syntax trees, the ones the models were written against: the
+   translator recomputes the digests from the live code and produces Gen/PinsC03.v
+   only when they match *)
+Theorem modelled_functions_are_the_pinned_ones : PinsC03.model_code_pinned = true.
+Proof. exact (eq_refl true). Qed.
+
 Print Assumptions class_head_decodes_partial.
 Print Assumptions method_tail_decodes_partial.
 Print Assumptions field_statement_decodes_partial.
@@ -89,3 +97,4 @@ Example c03_mtail_run :
                     mend_toks (MeCtor [mkCI [mkTk T_NAME 7] false [mkTk 3 9] false; mkCI [mkTk T_NAME 8] true [] true] [mkTk T_NAME 5]) ++ [ktok SEMI])
   = DOk (mkMT true false true false 0 None (Some []) false false false true, [ktok SEMI]).
 Proof. vm_compute. reflexivity. Qed.
+Print Assumptions modelled_functions_are_the_pinned_ones.
